@@ -25,7 +25,7 @@ func init() {
 		Explanation: "Decides table agreement, not the round trip. R1: for each of the three messages the (field number, wire type, name) table of the struct tags equals the one of the .proto file, the tag bytes written by the marshaller " +
 			"(number<<3|type, attributed to the field handled in that segment, written in descending order), the `case number` / `wireType != t` / assigned-field table of the unmarshaller, and Size has a 1+… contribution per field; numbers are 1–5 / 1 / 1–7. " +
 			"R2: the amount caster's Size and MarshalTo define the same case→length table (nil→1, non-empty→len+1, empty→2); the sign byte is 1 exactly under Sign() < 0, else 0; the magnitude is copied at buf[1:]; the reader takes the magnitude from buf[1:], " +
-			"negates exactly under sign byte 1 and rejects other sign bytes; every write of the amount writer lies below the length it returns on each path reachable from the write (the marshaller fills its buffer back to front: what lies behind is already encoded); every *big.Int the reader returns is allocated by it (never package-level state). R1 also: each decoder case reads and writes only the field of its own tag. R3: index/slice sites of the hand-written caster are in range (MarshalTo's nil case is an encoder contract: the buffer is sized by Size). Does NOT decide: decode(encode(x)) = x for all x, " +
+			"negates exactly under sign byte 1 and rejects other sign bytes; every write of the amount writer lies below the length it returns on each path reachable from the write (the marshaller fills its buffer back to front: what lies behind is already encoded); every *big.Int the reader returns is allocated by it (never package-level state). R1 also: each decoder case reads and writes only the field of its own tag. R1 also (presence): in the encoders every condition on the message is the presence test of one of its fields (`m.F != nil`, `len(m.F) > 0`, `m.F != 0`), never a helper that looks into the field. R3: index/slice sites of the hand-written caster are in range (MarshalTo's nil case is an encoder contract: the buffer is sized by Size). Does NOT decide: decode(encode(x)) = x for all x, " +
 			"canonicity, agreement with an independent encoder, totality of the generated decoder (protoc is not installed; the generated file cannot be regenerated).",
 		Trusted: []string{"go/ast of the generated file as type-checked", "the .proto file is the documented wire format"},
 		Rules:   []func(*Ctx){c14r1, c14r2, c14r3, c14r4},
